@@ -78,7 +78,12 @@ fn gen_trailers(sim: &Sim) -> Vec<(String, Vec<u8>)> {
     let n = sim.range(0, 4);
     for _ in 0..n {
         let name = sim.pick(&["x-a", "x-b", "k.1", "x-a", "x-c"]).to_string();
-        let val: Vec<u8> = sim.pick(&["v", "a:b", ":lead", "trail:", "two words", "a: b", "", "x"]).as_bytes().to_vec();
+        let val: Vec<u8> = match sim.draw(10) {
+            // obs-text: header values are bytes, not necessarily UTF-8
+            0 => vec![b'c', b'a', b'f', 0xe9],
+            1 => vec![0xff, b':', 0xfe],
+            _ => sim.pick(&["v", "a:b", ":lead", "trail:", "two words", "a: b", "", "x"]).as_bytes().to_vec(),
+        };
         t.push((name, val));
     }
     t
@@ -101,7 +106,7 @@ pub fn run(sim: &Sim, _idx: u64) {
     let mut starts: Vec<usize> = vec![];
     let mut msg_bytes: Vec<u8> = vec![];
     for _ in 0..nmsg {
-        let f = indep::frame(sim.draw(2) as u8, &sim.bytes(sim.pick(&[0usize, 1, 4, 5, 6, 50, 700])));
+        let f = indep::frame(sim.draw(2) as u8, &sim.bytes(sim.pick(&[0usize, 1, 4, 5, 6, 50, 700, 700, 8187, 8192, 9000, 20_000])));
         starts.push(body.len());
         body.extend(&f);
         msg_bytes.extend(&f);
@@ -163,7 +168,7 @@ pub fn run(sim: &Sim, _idx: u64) {
                 _ => {
                     // trailers block without CRLF / without colon
                     body.truncate(trailers_at);
-                    let bad: &[u8] = sim.pick(&[&b"grpc-status 0\r\n"[..], &b"\xff\xfe:1\r\n"[..]]);
+                    let bad: &[u8] = sim.pick(&[&b"grpc-status 0\r\n"[..], &b"\xff\xfe:1\r\n"[..], &b"bad name: 1\r\n"[..], &b"x(y): 1\r\ngrpc-status: 0\r\n"[..], &b": novalue\r\n"[..], &b"grpc-status: 0\r\nx-a: v\x00w\r\n"[..]]);
                     body.extend(indep::frame(0x80, bad));
                     defect = Some("malformed trailers block".into());
                 }
